@@ -614,7 +614,7 @@ pub fn ctrl_request_from(a: u8, nvend: usize, w: ReqWeights, pool: [(u8, u8); 2]
         (w[2].max(1), Just((0x03u8, vec![])).boxed()),
         (w[3].max(1), any_u8().prop_map(|q| (0x04u8, vec![q])).boxed()),
         (w[4].max(1), Just((0x05u8, vec![])).boxed()),
-        (w[5].max(1), any::<u16>().prop_map(move |x| (0x06u8, vec![((x as usize * nv) >> 16) as u8])).boxed()),
+        (w[5].max(1), (any::<u16>(), any::<u8>()).prop_map(move |(x, y)| (0x06u8, vec![if y & 7 == 0 { y | x as u8 } else { ((x as usize * nv) >> 16) as u8 }])).boxed()),
         (w[6].max(1), prop_oneof![
             2 => any_u8().prop_map(|e| (0x07u8, vec![e])),
             1 => (0u8..3, any_u8(), any_u8()).prop_map(|(o, p, s)| (0x08u8, vec![o, p, s])),
